@@ -30,6 +30,8 @@ pub struct RefTrain {
 #[derive(Clone, Debug, PartialEq, Eq, Hash, Default)]
 pub struct RefRx {
     pub open: BTreeMap<u8, RefTrain>,
+    /// smallest storage buffer the real receiver owns (0 = unknown: no first fragment is presumed acceptable)
+    pub storage_hint: usize,
 }
 
 fn no_mand(_: u16) -> Option<(bool, usize)> {
@@ -52,7 +54,12 @@ impl RefRx {
             Kind::Complete => {} // not a reassembly
             Kind::First => {
                 let f = p.frag_id.unwrap();
-                if matches!(real, DecapOut::Fragmented { .. }) {
+                // "the most recent first fragment of that fragment id": a first fragment the receiver accepted, and
+                // also one it has no packet-intrinsic reason to refuse while a train is open on the same id (storage
+                // is then available by stealing): well-formed, explicit non-zero label, no extension, a total length
+                // that leaves something for later fragments, payload within the storage size
+                let intrinsic_ok = p.lt != 3 && p.exts.is_empty() && p.pt.map_or(false, |t| t >= 0x0600) && !(p.lt == 0 && p.label.iter().all(|&b| b == 0)) && p.total_len.unwrap() as usize > p.payload.len() + 2 + p.label.len() && p.payload.len() <= self.storage_hint;
+                if matches!(real, DecapOut::Fragmented { .. }) || (intrinsic_ok && self.open.contains_key(&f)) {
                     self.open.insert(f, RefTrain { total: p.total_len.unwrap(), pt: p.pt.unwrap_or(0), label_wire: p.label.clone(), lt: p.lt, payload: p.payload.clone(), exts: p.exts.clone() });
                 }
                 // a rejected first fragment: the older train (if any) is kept as the candidate
@@ -408,7 +415,7 @@ fn part_a(rep: &Report, tier: Tier) {
             }
         }
         let rxp = RxS::of(&d);
-        let refp = RefRx::default();
+        let refp = RefRx { storage_hint: 64, ..RefRx::default() };
         // the unfaulted train must be delivered (sanity, otherwise everything below is vacuous)
         let (v0, del0) = run_seq(&rxp, &refp, &t.pkts, &mut acc0);
         if del0 != 1 || !v0.is_empty() {
@@ -541,6 +548,8 @@ fn b_alphabet() -> Vec<(String, Vec<u8>)> {
     v.push(("end-X-id0-crc-with-label".to_string(), Desc::end(0, &x[2..], crc_ref(tot(L3A), 0x0800, &L3A.bytes(), &x)).print()));
     v.push(("first-X-id0-3A-total-without-label".to_string(), Desc::first(L3A, 0x0800, 0, tot(Lbl::Bcast), &x[..2]).print()));
     v.push(("end-X-id0-crc-without-label".to_string(), Desc::end(0, &x[2..], crc_ref(tot(Lbl::Bcast), 0x0800, &[], &x)).print()));
+    // a valid first fragment without any payload byte: it restarts its fragment id like any other
+    v.push(("first-X-id0-no-payload".to_string(), Desc::first(L3A, 0x0800, 0, tot(L3A), &[]).print()));
     // a first fragment carrying an optional extension
     let mut d = Desc::first(L3A, 0x0202, 1, tot(L3A), &x[..2]);
     d.ext_bytes = vec![0xE1, 0xE2, 0x08, 0x00];
@@ -554,7 +563,7 @@ impl System for BSys {
     type State = BSt;
     type Op = usize;
     fn init(&self) -> Vec<BSt> {
-        vec![BSt { rx: RxS::new(2, 8, &[8, 8, 8]), r: RefRx::default() }]
+        vec![BSt { rx: RxS::new(2, 8, &[8, 8, 8]), r: RefRx { storage_hint: 8, ..RefRx::default() } }]
     }
     fn ops(&self, _s: &BSt) -> Vec<usize> {
         (0..self.alphabet.len()).collect()
@@ -593,7 +602,7 @@ pub fn b_sys() -> BSys {
 
 pub fn run(tier: Tier) -> i32 {
     let rep = Report::new("C03", tier);
-    rep.set_rule("A: fragment trains from the real encapsulator (PDUs of 5/12/40 bytes x labels 6B/3B/broadcast/re-use x 2..5 fragments) with EVERY single fault of the menu (drop, duplicate, swap, every single-bit flip incl. header bits, every burst pattern up to 10 (thorough 14) bits at every bit offset, truncation at every byte, every fragment id value, listed total-length and CRC replacements) and all ordered pairs of drop/dup/swap/bit-flip faults (quick: first four trains), plus every structural/length/frag-id fault (once and twice) followed by a recomputation of the CRC trailer over what is actually received; trains include ones whose end fragment carries the CRC alone; B: breadth-first search over all sequences of 27 hand-built, syntactically valid fragments (incl. CRC-only end fragments whose trailer matches a concatenation of the wrong length) (trains of two different PDUs spliced on one fragment id, another id, an aliasing id, right/wrong CRC and lengths) to closure with state merging on (receiver snapshot, reference state). Oracle in both: exact 'delivered only if' evaluated on the received bytes by a reference receiver + reference CRC. distinct = fault class x deliveries / packet x outcome");
+    rep.set_rule("A: fragment trains from the real encapsulator (PDUs of 5/12/40 bytes x labels 6B/3B/broadcast/re-use x 2..5 fragments) with EVERY single fault of the menu (drop, duplicate, swap, every single-bit flip incl. header bits, every burst pattern up to 10 (thorough 14) bits at every bit offset, truncation at every byte, every fragment id value, listed total-length and CRC replacements) and all ordered pairs of drop/dup/swap/bit-flip faults (quick: first four trains), plus every structural/length/frag-id fault (once and twice) followed by a recomputation of the CRC trailer over what is actually received; trains include ones whose end fragment carries the CRC alone; B: breadth-first search over all sequences of 28 hand-built, syntactically valid fragments (incl. CRC-only end fragments whose trailer matches a concatenation of the wrong length) (trains of two different PDUs spliced on one fragment id, another id, an aliasing id, right/wrong CRC and lengths) to closure with state merging on (receiver snapshot, reference state). Oracle in both: exact 'delivered only if' evaluated on the received bytes by a reference receiver + reference CRC. distinct = fault class x deliveries / packet x outcome");
     part_a(&rep, tier);
     directed_long(&rep);
     let sys = b_sys();
